@@ -12,12 +12,17 @@ from gen_api import hx, KEYS, ALLKEYS, MEMBERS
 
 ZKEYS = [b"z1", b"z2", b"z3"]
 ZI = b"zi"
-SCORES = [b"0", b"1", b"-1", b"2", b"3", b"5", b"10", b"100", b"+5", b"007", b"-0"]
+SCORES = [b"0", b"1", b"-1", b"2", b"3", b"5", b"10", b"100", b"+5", b"007", b"-0",
+          b"0.1", b"0.2", b"1e-3", b"3.0e3", b"-.5", b"5.", b"1e-400", b"0.1e1", b"0.30000000000000004", b"1.5", b"2.5", b"1e21", b"1e22",
+          b"123456.789", b"5e-324", b"1_0", b"1E2", b"9007199254740993", b"12345678901234567890"]
 INFS = [b"inf", b"-inf", b"+inf", b"Inf", b"-Inf", b"INF", b"infinity", b"-Infinity", b"+INFINITY"]
-BADFLOATS = [b"abc", b"", b"(", b"(1", b"1x", b"in", b"infi", b"+nan", b"-", b"+", b"1 ", b" 1", b"--1", b"i", b"n"]
+BADFLOATS = [b"abc", b"", b"(", b"(1", b"1x", b"in", b"infi", b"+nan", b"-", b"+", b"1 ", b" 1", b"--1", b"i", b"n",
+             b"1e400", b"-1e400", b"1e", b".", b"1e+", b"1__0", b"_1", b"1._5", b"1.2.3"]
 BOUNDS = [b"0", b"1", b"-1", b"2", b"3", b"5", b"10", b"100", b"(0", b"(1", b"(2", b"(3", b"(5", b"(10", b"(-1",
-          b"-inf", b"+inf", b"inf", b"(-inf", b"(+inf", b"(inf", b"-Infinity", b"Inf", b"(100", b"-100"]
-BADBOUNDS = [b"abc", b"", b"(", b"((1", b"1(", b"(abc", b"infi", b"+nan", b"(+nan", b"-", b"1 ", b"nan", b"(nan"]
+          b"-inf", b"+inf", b"inf", b"(-inf", b"(+inf", b"(inf", b"-Infinity", b"Inf", b"(100", b"-100",
+          b"0.1", b"(0.1", b"1.5", b"(1.5", b"2.5", b"1e-3", b"(1e-3", b"3.0e3", b"-.5", b"(-.5", b"1e300", b"-1e300", b"(1e300", b"1e-400",
+          b"0.30000000000000004", b"(0.30000000000000004", b"0.3", b"123456.789", b"1e21", b"5e-324", b"(5e-324", b"(0", b"0.1e1"]
+BADBOUNDS = [b"abc", b"", b"(", b"((1", b"1(", b"(abc", b"infi", b"+nan", b"(+nan", b"-", b"1 ", b"nan", b"(nan", b"1e400", b"(1e400", b"(-1e400", b"1e", b"(.", b"1__0"]
 INTS = [b"0", b"1", b"2", b"3", b"-1", b"-2", b"-3", b"5", b"10", b"-10", b"100"]
 BADINTS = [b"abc", b"", b"1.0", b"9223372036854775807", b"-9223372036854775808", b"9223372036854775808",
            b"99999999999999999999", b" 1", b"+2", b"007", b"(1", b"-"]
@@ -26,8 +31,10 @@ EDGE = [b"0", b"1", b"-1", b"2", b"5", b"10", b"100", b"-100", b"007", b"+5", b"
         b"-9223372036854775808", b"9223372036854775808", b"99999999999999999999", b" 1", b"1 ", b"(1", b"(", b"inf", b"-inf",
         b"NX", b"XX", b"GT", b"LT", b"CH", b"INCR", b"COUNT", b"MATCH", b"LIMIT", b"WITHSCORES", b"WITHSCORE", b"BYSCORE", b"REV",
         b"WEIGHTS", b"AGGREGATE", b"limit", b"withscores"]
-LOWS = [b"-inf", b"-inf", b"0", b"(0", b"1", b"(1", b"-1", b"-100", b"(-inf", b"2", b"-Infinity", b"(-1"]
-HIGHS = [b"+inf", b"inf", b"5", b"(5", b"10", b"100", b"3", b"(3", b"2", b"(2", b"(+inf", b"Infinity", b"(10"]
+LOWS = [b"-inf", b"-inf", b"0", b"(0", b"1", b"(1", b"-1", b"-100", b"(-inf", b"2", b"-Infinity", b"(-1",
+        b"0.1", b"(0.1", b"-.5", b"1e-3", b"(0.2", b"-1e300", b"0.30000000000000004", b"(0.30000000000000004", b"1e-400", b"(1.5", b"5e-324"]
+HIGHS = [b"+inf", b"inf", b"5", b"(5", b"10", b"100", b"3", b"(3", b"2", b"(2", b"(+inf", b"Infinity", b"(10",
+         b"2.5", b"(2.5", b"3.0e3", b"(3.0e3", b"1e300", b"0.30000000000000004", b"(0.30000000000000004", b"123456.789", b"(1e21", b"1e22", b"0.3"]
 RANKS = [(0, -1), (0, -1), (1, -1), (1, 2), (1, 3), (2, 3), (0, 2), (0, 5), (-3, -1), (-2, -1), (1, 1), (2, 2), (1, 100), (0, 100),
          (2, -1), (-100, 100), (0, 0), (-1, -1), (3, 5), (1, -2)]
 NORETURN = ("ZREM", "ZREMRANGEBYRANK", "ZREMRANGEBYSCORE", "ZCLEAR", "ZEXISTS")
@@ -145,8 +152,8 @@ def sanitize(g, conn, line):
     words = [bytes.fromhex(a).upper() if a != "-" and all(ch in "0123456789abcdef" for ch in a) else b"" for a in args]
     infs = any(has_inf(a) for a in args[1:])
     nan = any(w.lstrip(b"(") == b"NAN" for w in words)
-    # integers beyond 2^53 parse exactly in the model but are not printed by it
-    big = any(len(w.lstrip(b"(+-")) > 15 and w.lstrip(b"(+-").isdigit() for w in words[1:])
+    # (integers beyond 2^53 are parsed and printed by the model since Model/FloatDec.lean)
+    big = False
     if name in (b"ZADD", b"ZINCRBY"):
         if nan or big or (infs and (key != hx(ZI) or b"INCR" in words or name == b"ZINCRBY")):
             return f"resp {conn} " + " ".join([hx(b"ZCARD"), key or hx(b"z1")])
@@ -203,7 +210,7 @@ def zsets(g, conn):
         return parts + [t for o in opts for t in o]
     def zincrby():
         key = zkey(g)
-        return ["ZINCRBY", key, pick(g, [b"1", b"-1", b"2", b"5", b"10", b"0", b"(3", b"-100"], BADFLOATS + [b"((1"], 0.9), m()]
+        return ["ZINCRBY", key, pick(g, [b"1", b"-1", b"2", b"5", b"10", b"0", b"(3", b"-100", b"0.1", b"0.2", b"-.5", b"1e-3", b"3.0e3", b"(0.25", b"1e16", b"0.30000000000000004", b"5e-324", b"1e-400", b"123456.789"], BADFLOATS + [b"((1"], 0.9), m()]
     ops = [
         lambda: None, lambda: None, lambda: None, lambda: None, lambda: None, lambda: None, lambda: None, lambda: None,   # ZADD (built separately)
         lambda: ["ZCARD", k],
@@ -255,7 +262,7 @@ def zstore(g, conn):
     opts = []
     if r.random() < 0.45:
         nw = n if r.random() < 0.8 else c([0, 1, 2, 3, 4])
-        ws = [pick(g, [b"1", b"2", b"3", b"0", b"-1", b"10", b"(2"], [b"abc", b"", b"(", b"1x"], 0.92) for _ in range(nw)]
+        ws = [pick(g, [b"1", b"2", b"3", b"0", b"-1", b"10", b"(2", b"0.5", b"0.1", b"1e-3", b"3.0e3", b"-.5", b"(1.5", b"1e-400", b"0.1e1"], [b"abc", b"", b"(", b"1x", b"1e400", b"1e", b"."], 0.92) for _ in range(nw)]
         opts.append([g.word("WEIGHTS")] + ws)
     if r.random() < 0.45:
         a = [g.word("AGGREGATE")]
